@@ -543,10 +543,19 @@ def rule_location(model):
     r = RuleResult('C06.R4', 'every located error names a tag and the offset '
                    'of that same tag')
     S = model.cls('DT_String', 'String')
-    parser = [f for f in S.methods.values()
-              if f.name in ('parse', 'parse_block', 'parse_close')]
-    if len(parser) != 3:
+    core = [f for f in S.methods.values()
+            if f.name in ('parse', 'parse_block', 'parse_close')]
+    if len(core) != 3:
         raise AnalysisError('parse/parse_block/parse_close not all found')
+    # every method that reports located errors (helpers included)
+    parser = [f for f in S.methods.values() if f.name != 'parse_error' and
+              any(isinstance(n, ast.Call) and
+                  isinstance(n.func, ast.Attribute) and
+                  n.func.attr == 'parse_error' and len(n.args) == 4
+                  for n in own_nodes(f.node))]
+    for f in core:
+        if f not in parser:
+            parser.append(f)
     perr = model.func('DT_String', 'String.parse_error')
     pp = perr.params()
     if len(pp) != 5:
@@ -569,7 +578,7 @@ def rule_location(model):
                 # tag, args, command, coname = self._parseTag(mo, ...)
                 if isinstance(t, ast.Tuple) and isinstance(v, ast.Call) and \
                         isinstance(v.func, ast.Attribute) and \
-                        v.func.attr in ('_parseTag', 'parseTag') and \
+                        'parseTag' in v.func.attr and \
                         v.args and isinstance(v.args[0], ast.Name) and \
                         t.elts and isinstance(t.elts[0], ast.Name):
                     org[t.elts[0].id] = ('match', v.args[0].id)
@@ -595,8 +604,7 @@ def rule_location(model):
                         for c in ast.walk(b):
                             if isinstance(c, ast.Call) and \
                                     isinstance(c.func, ast.Attribute) and \
-                                    c.func.attr in ('_parseTag',
-                                                    'parseTag') and c.args \
+                                    'parseTag' in c.func.attr and c.args \
                                     and isinstance(c.args[0], ast.Name):
                                 return anc.name, c.args[0].id
                     return anc.name, None
@@ -623,17 +631,38 @@ def rule_location(model):
             for j in range(len(params)):
                 if i != j:
                     pairs[(callee.where, params[i], params[j])] = None
+    callee_names = {f.name for f in parser} - {'parse'}
     for fi in parser:
         org = origins(fi)
         for n in own_nodes(fi.node):
             if isinstance(n, ast.Call) and isinstance(n.func, ast.Attribute)\
-                    and n.func.attr in ('parse_block', 'parse_close'):
+                    and n.func.attr in callee_names and \
+                    n.func.attr in S.methods:
                 callee = S.methods[n.func.attr]
                 params = callee.params()[1:]
                 ao = [origin_of(a, fi, org, n) for a in n.args]
+                # a match object handed over together with its own offset
+                match_vars = {o[1] for o in org.values()
+                              if o and o[0] == 'match'}
+                for i, a in enumerate(n.args):
+                    if isinstance(a, ast.Name) and i < len(params) and \
+                            a.id in match_vars:
+                        for j, oj in enumerate(ao):
+                            if j < len(params) and oj == ('match', a.id):
+                                k = (callee.where, params[i], params[j])
+                                pairs[k] = True if pairs.get(k) is None \
+                                    else pairs[k]
+                            elif j < len(params) and j != i and oj and \
+                                    oj[0] == 'match' and \
+                                    (callee.where, params[i],
+                                     params[j]) in pairs:
+                                pairs[(callee.where, params[i],
+                                       params[j])] = False
                 for i, oi in enumerate(ao):
                     for j, oj in enumerate(ao):
                         if i == j or i >= len(params) or j >= len(params):
+                            continue
+                        if oi is None or oj is None:
                             continue
                         k = (callee.where, params[i], params[j])
                         same = oi is not None and oi == oj and \
@@ -659,6 +688,9 @@ def rule_location(model):
                 if tag_o and loc_o:
                     if tag_o == loc_o and tag_o[0] == 'match':
                         ok = True
+                    elif tag_o[0] == 'match' and loc_o[0] == 'param' and \
+                            pairs.get((fi.where, tag_o[1], loc_o[1])):
+                        ok = True      # helper given (match, its offset)
                     elif tag_o[0] == 'param' and loc_o[0] == 'param' and \
                             pairs.get((fi.where, tag_o[1], loc_o[1])):
                         ok = True
